@@ -464,6 +464,18 @@ func (e *Engine) dispatch(st *State, fn *types.Func, args []Value, call *ast.Cal
 			}
 		}
 	}
+	if e.fc != nil && len(e.fc.only) > 0 && !ignored {
+		keep := false
+		for _, x := range e.fc.only {
+			if full == x || strings.HasSuffix(full, "/"+x) || strings.HasSuffix(full, "."+x) || strings.HasSuffix(full, ")."+x) {
+				keep = true
+			}
+		}
+		if c := e.prog.contracts[full]; !keep && c != nil && !c.inline {
+			ignored = true
+			e.noteAssumption("contract not used at this call (only clause): " + full)
+		}
+	}
 	if fc := e.prog.contracts[full]; fc != nil && !fc.inline && !ignored {
 		return e.callContract(st, fc, args, call)
 	}
